@@ -400,6 +400,7 @@ func (HostileEngine) Run(prop string, ci any) *core.Outcome {
 		}
 	}
 	stepsVsChip(out, "C02", r)
+	smExchangeOracle(out, "C11", r)
 	out.Key = fmt.Sprintf("%s|%s|untrusted=%v|%s|%s|%s", c.Kind, accessKey(c.Spec), c.Spec.Untrusted, caKey(c.Spec), aaKey(c.Spec), verd)
 	return out
 }
